@@ -222,10 +222,15 @@ type Workload struct {
 	Replica     bool // also mount a replica and compare it after every statement
 	Compress    bool
 	ModeSwitch  bool // include journal-mode switches (rollback <-> WAL)
+	LockPage    bool // grow the database past SQLite's lock page (1 GiB), work around it, shrink below it, grow again
 }
 
 func (w Workload) String() string {
-	return fmt.Sprintf("%s/ps%d/cache%d/av%s/replica%v/switch%v/seed%d", w.JournalMode, w.PageSize, w.CacheSize, w.AutoVacuum, w.Replica, w.ModeSwitch, w.Seed)
+	lp := ""
+	if w.LockPage {
+		lp = "/lockpage"
+	}
+	return fmt.Sprintf("%s/ps%d/cache%d/av%s/replica%v/switch%v/seed%d%s", w.JournalMode, w.PageSize, w.CacheSize, w.AutoVacuum, w.Replica, w.ModeSwitch, w.Seed, lp)
 }
 
 // Run executes the workload on a mounted primary (and optionally a mounted replica) and evaluates
@@ -455,6 +460,25 @@ func Run(w Workload, dir string) (res Result) {
 		return
 	}
 	rows := 0
+	if w.LockPage {
+		// the lock page is the page that contains byte 1<<30: SQLite never stores data in it
+		per := w.PageSize - 200 // one overflow page per row, roughly
+		n := (1<<30)/w.PageSize + 300
+		steps := []string{
+			fmt.Sprintf("WITH RECURSIVE c(x) AS (SELECT 1 UNION ALL SELECT x+1 FROM c WHERE x < %d) INSERT INTO t(k, v) SELECT x, randomblob(%d) FROM c", n, per),
+			fmt.Sprintf("UPDATE t SET v = randomblob(%d) WHERE id > (SELECT max(id) FROM t) - 700", per),
+			"BEGIN; UPDATE t SET k = k + 1 WHERE id > (SELECT max(id) FROM t) - 400; ROLLBACK",
+			"DELETE FROM t WHERE id > (SELECT max(id) FROM t) - 600",
+			"VACUUM",
+			fmt.Sprintf("WITH RECURSIVE c(x) AS (SELECT 1 UNION ALL SELECT x+1 FROM c WHERE x < 900) INSERT INTO t(k, v) SELECT x, randomblob(%d) FROM c", per),
+		}
+		for i, st := range steps {
+			if !exec1(st, i == 2) {
+				return res
+			}
+		}
+		return res
+	}
 	for i := 0; i < w.Steps && len(res.Fails) == 0; i++ {
 		var ok bool
 		switch c := rnd.Intn(20); {
